@@ -263,6 +263,12 @@ func dispatchConnection(conn net.Conn, sta *State) {
 	preparedConn, err := finishHandshake(conn, sesh.GetSessionKey(), sta.WorldState.Rand)
 	if err != nil {
 		log.Error(err)
+		if !existing {
+			// this goroutine was going to serve the session it has just created. Leaving the session
+			// registered would make every later connection with this session id (the client retries with
+			// the same id) join a session whose streams nobody accepts
+			user.CloseSession(ci.SessionId, "handshake with the session's first connection failed")
+		}
 		return
 	}
 	log.Trace("finished handshake")
